@@ -242,7 +242,9 @@ class Recorder:
             if getattr(v, "replay_part", None):
                 vj["replay_part"] = v.replay_part  # a campaign reports a case of another part
             self.last_failure = (getattr(v, "replay_case", None) or case, vj)
-            if "non_yielding_loop" in v.kind + v.detail:
+            if "non_yielding_loop" in v.kind + v.detail or v.kind == "spin":
+                # (a spinning task costs its million scheduler steps - tens of seconds - on
+                # every replay as well: reported as found, not shrunk)
                 raise Frozen() from v
             raise
         if info is None:
